@@ -32,6 +32,13 @@
 (*           d0[b] * scale + 10 * offset[ppm] at the scale / offset the    *)
 (*           vector x of this call describes (initial values if unfitted)  *)
 (*           -- never the values of an earlier call or of compute_fit time *)
+(*           tot[l] = the total mixing ratio of the non-fill gases in      *)
+(*           layer l that the vector x of this call describes, in units of *)
+(*           1 / TS (computed by the harness from separate gas-profile     *)
+(*           objects: constant and layer-dependent profiles): an           *)
+(*           atmosphere above unity in SOME layer never gets a finite      *)
+(*           likelihood, and the model rejects the chemistry only if some  *)
+(*           layer reaches unity (one unit of rounding either way)         *)
 (*   setobs: the SAME optimizer is pointed at another observation          *)
 (*           (set_observed ; compile_params ; compute_fit -> new callbacks *)
 (*           ): d0 = base spectrum of the new observation, proj = the      *)
@@ -71,9 +78,14 @@ DataOk(s, e) ==
     \/ /\ s.d0 # <<>> /\ Len(e.dat8) = Len(s.d0)
        /\ \A b \in 1..Len(s.d0) :          \* dat8 / 8 = d0 * (xs / S) + 10 * (xo / S)
              e.dat8[b] * (e.S \div 8) = s.d0[b] * ObsValue(s, e, "scale", s.sc0) + 10 * ObsValue(s, e, "offset", s.off0)
+\* invalid atmospheres, layer by layer
+LayerOk(e) ==
+    /\ LayersAbove(e.tot, e.TS + 1, "any") => e.ret # "num"
+    /\ e.oc = "InvalidChemistry" => LayersAbove(e.tot, e.TS - 2, "any")
 LikeOk(s, e) ==
     LET n == Len(s.proj) IN
     /\ DataOk(s, e)
+    /\ LayerOk(e)
     /\ Len(e.x) = s.nfit /\ Len(e.before) = n /\ Len(e.after) = n
     /\ \A j \in 1..n : Abs(e.before[j] - s.proj[j]) <= 1                 \* nobody wrote between the calls
     /\ \A i \in 1..s.nfit : Abs(e.after[i] - e.x[i]) <= 1                  \* WrittenIsPriorOfX, OrderIsFitOrder
